@@ -12,11 +12,12 @@ namespace CueVerif.Proofs.NumValPrint
 open CueVerif CueVerif.Arith CueVerif.NumVal CueVerif.Spec.Arith
 open CueVerif.Proofs.NumValPrintAux
 
-/-- numbers whose printed form reads back with the same kind: ints with exponent 0 (every int
-literal, every int result of up to 34 digits); floats inside the exponent window -/
+/-- numbers whose printed form reads back with the same kind: ints with exponent 0 and at most
+100001 digits (every int literal the implementation accepts, every int result of up to 34
+digits); floats inside the exponent window -/
 def PrintRegular (n : Num) : Prop :=
   match n.k with
-  | .int => n.d.exp = 0
+  | .int => n.d.exp = 0 ∧ adjExp n.d ≤ maxExp
   | .float => -maxExp ≤ adjExp n.d ∧ adjExp n.d ≤ maxExp ∧ -maxExp ≤ n.d.exp ∧
       (Dec.numDigits n.d.coeff.natAbs : Int) ≤ maxExp
 
@@ -36,12 +37,14 @@ theorem print_parse (n : Num) (h : PrintRegular n) :
   obtain ⟨k, ⟨c, x⟩⟩ := n
   cases k with
   | int =>
-    have hx : x = 0 := h
+    obtain ⟨hx, ha⟩ : x = 0 ∧ adjExp ⟨c, x⟩ ≤ maxExp := h
     subst hx
+    have hL : (Dec.numDigits c.natAbs : Int) - 1 ≤ maxExp := by
+      simp only [adjExp] at ha; omega
     have hp : printNum ⟨.int, ⟨c, 0⟩⟩ =
         if c < 0 then 45 :: digitsOf c.natAbs else digitsOf c.natAbs := fmtG_exp0 101 c
     rw [hp]
-    refine ⟨_, signed_back c _ _ (NumValPrintAux.lit_int c.natAbs), ?_, ?_⟩
+    refine ⟨_, signed_back c _ _ (NumValPrintAux.lit_int c.natAbs hL), ?_, ?_⟩
     · rw [signed_kind]
     · exact signed_toRat c 0 _ rfl
   | float =>
@@ -91,11 +94,15 @@ example : printNum ⟨.float, ⟨0, -3000⟩⟩ = [48, 101, 45, 51, 48, 48, 48] 
 example : printNum ⟨.int, ⟨12, 0⟩⟩ = [49, 50] ∧ printNum ⟨.float, ⟨12, 0⟩⟩ = [49, 50, 46, 48] := by
   decide
 example : jsonNum ⟨.float, ⟨15, 6⟩⟩ = [49, 46, 53, 69, 43, 55] := by decide
--- the hypothesis of `print_parse` is satisfiable in each of these regions
+-- the hypothesis of `print_parse` is satisfiable in each of these regions (for an int: exponent 0
+-- and adjusted exponent = number of digits - 1 inside the window)
 example : PrintRegular ⟨.float, ⟨-15, -1⟩⟩ ∧ PrintRegular ⟨.float, ⟨15, -5⟩⟩ ∧
     PrintRegular ⟨.float, ⟨15, 6⟩⟩ ∧ PrintRegular ⟨.float, ⟨0, -3000⟩⟩ ∧
     PrintRegular ⟨.int, ⟨12, 0⟩⟩ := by
   simp only [PrintRegular]; decide
+example : ¬ PrintRegular ⟨.int, ⟨12, 1⟩⟩ := by
+  simp only [PrintRegular]; decide
+example : readBack (printNum ⟨.int, ⟨-12, 0⟩⟩) = .ok ⟨.int, ⟨-12, 0⟩⟩ := by decide
 example : readBack (printNum ⟨.float, ⟨-15, -1⟩⟩) = .ok ⟨.float, ⟨-15, -1⟩⟩ := by decide
 example : readBack (printNum ⟨.float, ⟨12, 0⟩⟩) = .ok ⟨.float, ⟨120, -1⟩⟩ := by decide
 
